@@ -39,7 +39,7 @@ ASSUMPTIONS = ["code outside the traced files is atomic between two pre-emption 
                "request loss/duplication not injected: no property promises idempotent retry",
                "sampling over schedules, not proof; the single-pre-emption sweep is complete only for the sampled request pairs"]
 FAULT_KINDS = ["preemption", "client_disconnect", "step_exception", "invalid_request", "state_store_error"]
-PROBES = ["response_held_past_the_instance_deadline", "instance_restored_during_choreography", "stream_dropped_before_first_chunk", "view_and_body_on_different_threads", "save_failed_during_stepping_request", "exception_inside_a_step", "time_passes_while_stream_held", "held_stream", "late_close_of_finished_stream", "session_restarted_during_choreography", "stepping_without_session", "invalid_request_sent", "disconnect_mid_stream", "exception_mid_request",
+PROBES = ["clients_race_on_a_restored_session", "response_held_past_the_instance_deadline", "instance_restored_during_choreography", "stream_dropped_before_first_chunk", "view_and_body_on_different_threads", "save_failed_during_stepping_request", "exception_inside_a_step", "time_passes_while_stream_held", "held_stream", "late_close_of_finished_stream", "session_restarted_during_choreography", "stepping_without_session", "invalid_request_sent", "disconnect_mid_stream", "exception_mid_request",
           "refused_while_locked", "stream_completed", "preempted_inside_run_step"]
 EXHAUSTIVE = {"quick": False, "thorough": False}
 
@@ -310,7 +310,10 @@ def generate(spec):
         else:
             sched = {"kind": "pct", "seed": rng.randrange(2**32), "depth": rng.choice([1, 2, 3]),
                      "est": rng.choice([150, 400, 900])}
-    return base_case(clients, sched, pre=pre, stop=stop, adapter=adapter)
+    c_ = base_case(clients, sched, pre=pre, stop=stop, adapter=adapter)
+    if adapter and pre >= 1 and mode not in ("directed", "overtake", "overtake2", "sweep") and rng.random() < 0.4:
+        c_["config"]["restore_before"] = True
+    return c_
 
 
 # ------------------------------------------------------------------ execute + oracle
@@ -584,7 +587,7 @@ def execute(case):
     log = EventLog()
     res = RunResult()
     cfg = case["config"]
-    wcfg = {"model": cfg["model"], "adapter": cfg.get("adapter"), "threads": "auto"}
+    wcfg = {"model": cfg["model"], "adapter": cfg.get("adapter"), "threads": "auto", "replays_are_internal": bool(cfg.get("restore_before"))}
     start = cfg["model"]["start"]
     dt = cfg["model"]["dt"]
     clients = case["clients"]
@@ -598,6 +601,12 @@ def execute(case):
         for j in range(cfg.get("pre", 0)):
             r = w.post("/%s/run-step" % inst, {"settings": {}}, tag="pre%d" % j)
             assert r.status == 200, r.text
+        if cfg.get("restore_before") and cfg.get("adapter") and cfg.get("pre", 0) >= 1:
+            # the instance comes back from its externalised state right before the clients arrive: the first stepping request
+            # replays the session lazily - under ITS lock, whatever the others do meanwhile
+            rr = w.post("/load-state")
+            assert rr.status == 200, rr.text
+            res.probe("clients_race_on_a_restored_session")
 
         def mk(i, c):
             tag = "c%d" % i
